@@ -36,8 +36,8 @@ CLAIMS = {
             "Trusted: Coq kernel, extraction + driver, harness; crossbeam-channel = linearizable FIFO (a list); real thread interleavings are not exhibited by the model, only message-level cuts. No axioms.", "4.C19"),
     "C09": ("Translation validation, per instance (theorems in progress): every ADF - small ones and large ones with 20-60 statements and formula depth up to 8 - is compiled natively and imported from biodivine (with and without pre-grounding); the implementation's biodivine dumps are replayed by the extracted model into the store that also holds the natively compiled conditions, and a statement passes iff both handles coincide (equal handle iff equal function by the canonicity theorem C06); tables and root handles are compared exactly with the model's replay; small instances are additionally judged by truth tables of the written formulas. Proved so far: C01_parsed_adfs_are_well_formed (native compilation denotes the formulas). The bridge theorem (bridge_den, validator soundness) is being proved in Adf/BridgeProofs.v.",
             "biodivine's to_string format is taken from the implementation run through the cfg(adf_obdd_verif) hook.", "4.C09", "translation_validation"),
-    "C10": ("Differential / metamorphic check (equivariance theorems in progress in Spec/Equivariance.v, Front/Presentation.v): each ADF in six presentations (fact order, layout, three sort modes, bijective renaming reversing the lexicographic order); answers compared as sets of label->value maps across presentations and with the model; --lx order checked to be byte-wise.",
-            "natural_lexical_cmp is not modelled (alphanumeric sorting is compared implementation against implementation).", "4.C10", "exploration"),
+    "C10": ("Coq theorems (Spec/Equivariance.v, Front/Presentation.v): the four semantics are equivariant under permutations of the statements (C10_semantics_equivariant); C10_presentation_invariant: an injective renaming of the labels, ANY permutation of the name list (whatever the sort step produces - so the alphanumeric comparator need not be modelled) and any permutation of the facts leave the set of answers, read as label->value maps, unchanged; C10_lexicographic_sorting: varsort_lexi yields the byte-wise sorted name list with the same label maps; C10_fact_order at the level of parsed documents; parser name lists are duplicate-free. Together with the exactness theorems of C01-C03 this covers the pipeline parse -> sort -> build -> semantics -> label map for all ADFs, permutations and renamings. Tie: each ADF (small: all semantics; 30-60 statements: grounded) in six presentations (fact order, layout, three sort modes, renaming that reverses the lexicographic order), answers compared as sets of label maps across presentations and with the model; --lx order checked to be byte-wise.",
+            "Trusted: Coq kernel, extraction + driver, harness; lexical_sort::natural_lexical_cmp is only assumed to produce a permutation (alphanumeric sorting compared implementation against implementation). No axioms.", "4.C10"),
     "C11": ("Differential check over call histories (theorem answers_determined in progress): random sequences of public calls on one Adf (all semantics, both searches, Rand, counts, facets, extra formulas on the shared diagram), every answer judged against the definitions, repeated questions must repeat their answers, every bookkeeping table (unique table, var_deps, count cache, ite cache, restrict cache) is hashed through the audit hook and compared with the model's tables after the history, and every history is run twice (determinism).",
             "HashMap iteration order is not observable through the modelled API.", "4.C11", "exploration"),
     "C14": ("Differential check (round-trip theorems in progress): serde_json export + import + fix_import, and the web service's path Bdd::from(nodes) + Adf::from, at three life points (fresh, after computations, twice), native and bridged; numbering, roots, unique table and variable sets must be identical, all semantics must answer as before, and the model (import_raw / fix_import / from_nodes) must agree.",
